@@ -147,6 +147,7 @@ fn generate(corpus: &Corpus, tier: Tier, run: u64, rng: &mut Rng) -> Option<Case
         Op::CopyVar { to, .. } => !reserved(to),
         _ => true,
     });
+    crate::script::sprinkle_binding_changes(rng, &prog, &mut ops);
     let tail = gen_tail(rng, 3);
     let mut host = default_host(&prog, rng);
     // sometimes leave externals unbound (with and without fallbacks)
